@@ -31,10 +31,13 @@ type Env struct {
 	rangeKey string
 	// curParams: a parameter name means its current value (loop clauses), not the value at entry
 	curParams bool
+	// loopPre: the environment in which before(...) of a loop clause is evaluated
+	// (state and loop-carried values when the loop was entered)
+	loopPre *Env
 }
 
 func (e *Env) clone() *Env {
-	n := &Env{f: e.f, vars: map[string]EV{}, st: e.st, old: e.old, oldEnv: e.oldEnv, pkg: e.pkg, lookup: e.lookup, rangeKey: e.rangeKey, curParams: e.curParams}
+	n := &Env{f: e.f, vars: map[string]EV{}, st: e.st, old: e.old, oldEnv: e.oldEnv, pkg: e.pkg, lookup: e.lookup, rangeKey: e.rangeKey, curParams: e.curParams, loopPre: e.loopPre}
 	for k, v := range e.vars {
 		n.vars[k] = v
 	}
@@ -169,7 +172,7 @@ func (e *Env) expr(x ast.Expr, hint string) (Term, types.Type) {
 			hi, _ = e.expr(n.High, f.vc.sorts.wordSort())
 		}
 		if base.Sort == sSl {
-			return T(sSl, "(mk.Sl (Sl.base %s) (+ (Sl.off %s) %s) (- %s %s) (- (Sl.cap %s) %s))", base.S, base.S, lo.S, hi.S, lo.S, base.S, lo.S), bt
+			return T(sSl, "(mk.Sl (Sl.base %s) %s (- %s %s) (- (Sl.cap %s) %s))", base.S, f.subOffset(base, lo), hi.S, lo.S, base.S, lo.S), bt
 		}
 		return f.subSeq(base, lo, hi), bt
 	case *ast.CallExpr:
@@ -619,7 +622,14 @@ func (e *Env) callExpr(n *ast.CallExpr, hint string) (Term, types.Type) {
 				if i < len(sf.Args) {
 					h = normSort(sf.Args[i])
 				}
-				t, _ := e.expr(a, h)
+				t, tt := e.expr(a, h)
+				if t.Sort == sSl && strings.HasPrefix(h, "Seq_") && tt != nil {
+					// a heap slice where the specification function takes a sequence: the
+					// sequence of its elements in the current state
+					if sl, ok := tt.Underlying().(*types.Slice); ok && "Seq_"+sortTag(f.vc.sorts.sortOf(sl.Elem())) == h {
+						t = f.seqOfSlice(t, sl.Elem(), e.st)
+					}
+				}
 				if h != "" && t.Sort != h && !(h == "Int" && (t.Sort == sRef || t.Sort == sErr || t.Sort == sIfc || t.Sort == sFn)) {
 					panic(fmt.Sprintf("argument %d of spec.%s has sort %s, want %s", i, name, t.Sort, h))
 				}
@@ -730,6 +740,14 @@ func (e *Env) callExpr(n *ast.CallExpr, hint string) (Term, types.Type) {
 		k, _ := e.expr(n.Args[1], ks)
 		v, _ := e.expr(n.Args[2], vs)
 		return T(a.Sort, "(store %s %s %s)", a.S, k.S, v.S), nil
+	case "constarr":
+		// constarr(v): the ghost map that maps every key to v (its sort comes from the context)
+		_, vs, ok := arraySorts(hint)
+		if !ok {
+			panic("constarr needs an array sort from its context, got " + hint)
+		}
+		v, _ := e.expr(n.Args[0], vs)
+		return T(hint, "((as const %s) %s)", hint, v.S), nil
 	case "ifaceptr":
 		// ifaceptr(x): the pointer held by a non-empty interface value (io.Writer holding an *os.File)
 		t, _ := e.expr(n.Args[0], sIfc)
@@ -752,8 +770,14 @@ func (e *Env) callExpr(n *ast.CallExpr, hint string) (Term, types.Type) {
 		return T(sBool, "(and ((_ is VOther) %s) (= (tid %s) %d) (not (= (pay %s) 0)))", t.S, t.S, id, t.S), nil
 	case "same":
 		// structural (SMT) equality: for floats, identical bit patterns up to NaN payload
-		a, _ := e.expr(n.Args[0], hint)
+		a, at := e.expr(n.Args[0], hint)
 		b, _ := e.expr(n.Args[1], a.Sort)
+		if a.Sort == sSl && strings.HasPrefix(b.Sort, "Seq_") && at != nil {
+			// a heap slice against a sequence: its elements, in order
+			if sl, ok := at.Underlying().(*types.Slice); ok {
+				a = f.seqOfSlice(a, sl.Elem(), e.st)
+			}
+		}
 		return tEq(a, b), nil
 	case "iff":
 		a, _ := e.expr(n.Args[0], sBool)
@@ -816,6 +840,9 @@ func (e *Env) callExpr(n *ast.CallExpr, hint string) (Term, types.Type) {
 		return T(sBool, "(%s ((%s %s)) %s)", q, qn, srt, body.S), nil
 	case "fresh":
 		t, _ := e.expr(n.Args[0], sRef)
+		if strings.HasPrefix(t.Sort, "Seq_") {
+			return tTrue(), nil // a value sequence is not a heap object: nothing can alias it
+		}
 		if t.Sort == sSl {
 			t = T(sInt, "(Sl.base %s)", t.S)
 		}
@@ -832,6 +859,19 @@ func (e *Env) callExpr(n *ast.CallExpr, hint string) (Term, types.Type) {
 	case "alloc":
 		t, _ := e.expr(n.Args[0], sRef)
 		return T(sInt, "(alloc %s)", t.S), nil
+	case "before":
+		// before(e) in a loop clause: e when the loop was entered
+		if e.loopPre == nil {
+			panic("before(...) outside a loop clause")
+		}
+		pe := e.loopPre.clone()
+		// bound variables of enclosing quantifiers stay visible
+		for k, v := range e.vars {
+			if t, isT := v.V.(Term); isT && boundVarRE.MatchString(t.S+" ") {
+				pe.vars[k] = v
+			}
+		}
+		return pe.expr(n.Args[0], hint)
 	case "mkstruct":
 		// mkstruct(S_pkg_Type, field values in declaration order): a struct value
 		srt := exprText(n.Args[0])
